@@ -27,7 +27,7 @@ def read_lammpslog(filename) -> [pd.DataFrame]:
     start = [i for i, val in enumerate(data) if val.lstrip().startswith("Step ")]
     end = [i for i, val in enumerate(data) if val.startswith("Loop time of ")]
 
-    if data[-1] != "\n":
+    if data and data[-1].strip():
         if data[-1].split()[0].isnumeric():  # incomplete log file
             end.append(len(data) - 2)
 
